@@ -34,7 +34,7 @@ def run(ctx):
 
     # (b) replay of every registry row on the real lookups, and on the extracted model
     harness = common.build_harness("c08_lookup")
-    driver = tables.build_driver_s("C08")
+    driver = common.build_driver("C08")
     cases = tables.registry_cases(reg) + tables.registry_id_cases(reg)
     if getattr(ctx, "replay", None):
         rp = json.load(open(ctx.replay))
